@@ -461,6 +461,34 @@ def meaning(cs, sv: SpecView, c: Cand):
         if k == "TaskStartAfter":
             return b3(t.s > v if mode == "strict" else t.s >= v)
         return b3(t.e < v if mode == "strict" else t.e <= v)
+    if k == "TaskPrecedence" and (cs["before"] not in Tk or cs["after"] not in Tk):
+        # precedence between task groups: the group bounds are auxiliary unknowns enclosing the
+        # scheduled members, so it holds iff every scheduled member of the first group ends
+        # (plus offset) before every scheduled member of the second starts; "tight" leaves
+        # slack in the bounds and is only judged in the negative direction.
+        groups = {x["id"]: x for x in sv.spec.get("constraints", []) if x["kind"] in ("UnorderedTaskGroup", "OrderedTaskGroup")}
+        def members(ref):
+            if ref in Tk:
+                return [Tk[ref]] if Tk[ref].x else []
+            g = groups.get(ref)
+            if g is None:
+                return None
+            return [Tk[i] for i in g["tasks"] if Tk[i].x]
+        A, B = members(cs["before"]), members(cs["after"])
+        if A is None or B is None:
+            return U
+        if any(t.optional for t in ()):  # pragma: no cover
+            return U
+        if not A or not B:
+            return U  # an empty side: the free group bounds still have to be ordered - not documented
+        mode, off = cs.get("mode", "lax"), cs.get("offset", 0)
+        worst = max(t.e for t in A) + off
+        first = min(t.s for t in B)
+        if mode == "strict":
+            return b3(worst < first)
+        if mode == "lax":
+            return b3(worst <= first)
+        return U if worst <= first else I
     if k == "TaskPrecedence":
         a, b = Tk[cs["before"]], Tk[cs["after"]]
         if not (a.x and b.x):
